@@ -604,7 +604,9 @@ pub(super) fn add(
         let rhs = operand_load(block, &instruction.operands()[2], bits)?;
 
         // perform operation
-        let src = il::Expression::add(lhs, rhs).unwrap();
+        // operand kinds this lifter does not model (e.g. SVE vectors) end up
+        // with mismatched widths
+        let src = il::Expression::add(lhs, rhs).map_err(|_| unsupported())?;
 
         // store result
         operand_store(block, &instruction.operands()[0], src)?;
@@ -1374,7 +1376,9 @@ pub(super) fn sub(
         let rhs = operand_load(block, &instruction.operands()[2], bits)?;
 
         // perform operation
-        let src = il::Expression::sub(lhs, rhs).unwrap();
+        // operand kinds this lifter does not model (e.g. SVE vectors) end up
+        // with mismatched widths
+        let src = il::Expression::sub(lhs, rhs).map_err(|_| unsupported())?;
 
         // store result
         operand_store(block, &instruction.operands()[0], src)?;
